@@ -8,7 +8,7 @@ props = [json.loads(l)["id"] for l in open(os.path.join(V, "properties.jsonl"))]
 checks, na = [], []
 for pid in props:
     path = os.path.join(V, "checks", pid.lower() + ".py")
-    if not os.path.exists(path):
+    if not os.path.exists(path) or pid not in static.get("ready", []):
         na.append({"property_id": pid, "reason": static["pending"].get(pid, "check not built yet (see DESIGN.md section 11 for the order of work)")})
         continue
     m = importlib.import_module("checks." + pid.lower())
